@@ -112,3 +112,77 @@ Theorem collect_pinned_refuted :
   let mro := [(1, 8); (2, 4); (1, 4)] in      (* name 1: 'Q' in the subclass, 'I' in the base class *)
   ~ NoDup (map fst (dedupe_pinned mro)).
 Proof. intros mro H. inversion H as [|? ? N _]. apply N. cbn. auto. Qed.
+
+(* ---- Dict structures ---- *)
+Lemma land_m8 x : Z.land x (-8) = 8 * (x / 8).
+Proof. change (-8) with (- 2 ^ 3). rewrite land_neg_pow2 by lia. reflexivity. Qed.
+
+Theorem dict_layout stack ks vs : 0 <= ks -> 0 <= vs ->
+  let '((k, _), (v, _), st) := alloc_dict stack ks vs in
+  st = v /\ v + vs <= k /\ k + ks <= stack /\ k mod 8 = 0 /\ v mod 8 = 0.
+Proof.
+  intros Hk Hv. unfold alloc_dict. rewrite !land_m8.
+  set (k := 8 * ((stack - ks) / 8)). set (v := 8 * ((k - vs) / 8)).
+  pose proof (Z.div_mod (stack - ks) 8 ltac:(lia)). pose proof (Z.mod_pos_bound (stack - ks) 8 ltac:(lia)).
+  pose proof (Z.div_mod (k - vs) 8 ltac:(lia)). pose proof (Z.mod_pos_bound (k - vs) 8 ltac:(lia)).
+  repeat split; try (subst k v; lia); subst k v; rewrite Z.mul_comm; apply Z.mod_mul; lia.
+Qed.
+
+Lemma pow2_nonneg s : pow2_size s -> 0 <= s.
+Proof. intros (k & Hk & ->). apply Z.pow_nonneg. lia. Qed.
+
+(* everything allocated from `stack` lies in [new stack, stack) *)
+Lemma alloc_items_bounds : forall l stack, Forall item_ok l ->
+  Forall (fun r => snd (alloc_items stack l) <= fst r /\ fst r + snd r <= stack) (fst (alloc_items stack l)) /\
+  snd (alloc_items stack l) <= stack.
+Proof.
+  induction l as [|i tl IH]; intros stack Hl; cbn [alloc_items]; [split; [constructor|cbn; lia]|].
+  inversion Hl as [|? ? Hi Ht]; subst. destruct i as [s|ks vs].
+  - destruct (alloc_local_spec stack s Hi) as (A & _ & _). pose proof (pow2_nonneg s Hi) as Hs.
+    specialize (IH (alloc_local stack s) Ht). destruct (alloc_items (alloc_local stack s) tl) as [rest st].
+    cbn [fst snd] in *. destruct IH as [IH1 IH2]. split; [|lia].
+    constructor; [cbn [fst snd]; lia|]. eapply Forall_impl; [|exact IH1]. cbn beta. intros r [R1 R2]. lia.
+  - destruct Hi as [Hk Hv]. pose proof (dict_layout stack ks vs Hk Hv) as D. unfold alloc_dict in *.
+    set (k := Z.land (stack - ks) (-8)) in *. set (v := Z.land (k - vs) (-8)) in *. cbv zeta in D.
+    destruct D as (_ & D1 & D2 & _ & _).
+    specialize (IH v Ht). destruct (alloc_items v tl) as [rest st]. cbn [fst snd] in *. destruct IH as [IH1 IH2].
+    split; [|lia]. constructor; [cbn [fst snd]; lia|]. constructor; [cbn [fst snd]; lia|].
+    eapply Forall_impl; [|exact IH1]. cbn beta. intros r [R1 R2]. lia.
+Qed.
+
+(* locals, Dict keys and Dict values of one program never overlap, for ANY declaration list in ANY order *)
+Theorem items_disjoint : forall l stack, Forall item_ok l -> pairwise_disjoint (fst (alloc_items stack l)).
+Proof.
+  induction l as [|i tl IH]; intros stack Hl; cbn [alloc_items]; [exact I|].
+  inversion Hl as [|? ? Hi Ht]; subst. destruct i as [s|ks vs].
+  - pose proof (alloc_items_bounds tl (alloc_local stack s) Ht) as [B _].
+    specialize (IH (alloc_local stack s) Ht). destruct (alloc_items (alloc_local stack s) tl) as [rest st].
+    cbn [fst snd pairwise_disjoint] in *. split; [|exact IH].
+    eapply Forall_impl; [|exact B]. intros r [_ Hr]. unfold disjoint. cbn [fst snd]. right. exact Hr.
+  - destruct Hi as [Hk Hv]. pose proof (dict_layout stack ks vs Hk Hv) as D. unfold alloc_dict in *.
+    set (k := Z.land (stack - ks) (-8)) in *. set (v := Z.land (k - vs) (-8)) in *. cbv zeta in D.
+    destruct D as (_ & D1 & D2 & _ & _).
+    pose proof (alloc_items_bounds tl v Ht) as [B _].
+    specialize (IH v Ht). destruct (alloc_items v tl) as [rest st]. cbn [fst snd pairwise_disjoint] in *.
+    split; [|split; [|exact IH]].
+    + constructor; [unfold disjoint; cbn [fst snd]; lia|].
+      eapply Forall_impl; [|exact B]. intros r [_ Hr]. unfold disjoint. cbn [fst snd]. right. lia.
+    + eapply Forall_impl; [|exact B]. intros r [_ Hr]. unfold disjoint. cbn [fst snd]. right. lia.
+Qed.
+
+(* scratch space (get_stack) taken after all declarations lies below every one of them *)
+Theorem scratch_below_items l size : Forall item_ok l -> pow2_size size ->
+  let '(vars, st) := alloc_items 0 l in
+  Forall (fun r => disjoint (scratch st size, size) r) vars.
+Proof.
+  intros Hl Hz. pose proof (alloc_items_bounds l 0 Hl) as [B _].
+  destruct (alloc_items 0 l) as [vars st]. cbn [fst snd] in *.
+  destruct (alloc_local_spec st size Hz) as (A & _ & _). unfold scratch, alloc_local in *.
+  eapply Forall_impl; [|exact B]. intros r [Hr _]. unfold disjoint. cbn [fst snd]. left. lia.
+Qed.
+
+(* what goes wrong when the rounded value offset is not written back (a seeded change): scratch lands inside the value *)
+Example dict_unrounded_refuted :
+  let k := Z.land (0 - 4) (-8) in let st := k - 4 in let v := Z.land st (-8) in
+  ~ disjoint (scratch st 4, 4) (v, 4).
+Proof. vm_compute. intros [H|H]; apply H; reflexivity. Qed.
